@@ -20,6 +20,7 @@ import warnings
 import numpy as np
 
 from ..gen import arrays as A
+from ..mon import siblings as S
 from ..mon.compare import compare_arrays, lazy_meta_mismatch
 
 PROP = "C19"
@@ -134,7 +135,7 @@ def run_case(case, ctx):
             ctx.reject("==/!= between datetime-like and other dtypes is a NumPy richcompare fallback, not a ufunc")
             return
 
-    def build(X, Y, mod):
+    def build(X, Y, mod, op=op):
         if kind == "bin":
             return getattr(operator, op)(X, Y)
         if kind == "rbin":
@@ -195,6 +196,37 @@ def run_case(case, ctx):
     if m:
         ctx.violation("%s:%s:%s:%s" % (kind, opname, _feat(case, x, y), m[0]), m[1])
     ctx.sample = {"op": str(op), "chunks": [case["c1"], case["c2"]], "result_shape": list(np.shape(rv)), "dtype": str(np.asarray(rv).dtype)}
+    # sibling facet: the same expression with ONE parameter changed must not share keys with this one
+    param, thunk, desc = _sibling(case, kind, op, yk, dx, dy, build, da)
+    if thunk is not None:
+        S.check(ctx, kind, param, r, thunk, va=rv, describe=desc)
+
+
+_ASTYPE_SIBS = ["int8", "int32", "int64", "uint8", "float32", "float64", "complex128", ">i4", ">f8", "float16"]
+_BINARY = ("bin", "rbin", "binuf", "where3", "whereout")
+
+
+def _sibling(case, kind, op, yk, dx, dy, build, da):
+    """(parameter name, thunk building the sibling, description): another scalar / NumPy operand / astype target /
+    clip bound, else another operation of the same family."""
+    srng = S.rng_for(case)
+    if kind == "astype":
+        op2 = srng.choice([d for d in _ASTYPE_SIBS if d != op])
+        return "dtype", (lambda: build(dx, dy, da, op=op2)), {"dtype": op2}
+    if kind == "clip":
+        op2 = [op[0] - 1, op[1]] if srng.random() < 0.5 else [op[0], op[1] - 1 if op[1] - 1 >= op[0] else op[1] + 1]
+        return "bound", (lambda: build(dx, dy, da, op=op2)), {"bounds": op2}
+    if kind in _BINARY and yk == "scalar" and srng.random() < 0.75:
+        j = srng.choice([i for i in range(len(SCALARS)) if i != case["scalar"]])
+        return "scalar", (lambda: build(dx, _scalar(j), da)), {"scalar": repr(SCALARS[j])}
+    if kind in _BINARY and yk == "numpy" and srng.random() < 0.75:
+        y2 = A.rand_data(case["seed"] + 2, case["s2"], case["d2"])
+        return "numpy-operand", (lambda: build(dx, y2, da)), {"seed": "+2"}
+    pool = {"bin": BIN, "rbin": BIN, "binuf": BINUF, "whereout": BINUF, "un": UN, "unuf": UNUF}.get(kind)
+    if not pool:
+        return None, None, None
+    op2 = srng.choice([o for o in pool if o != op])
+    return "op", (lambda: build(dx, dy, da, op=op2)), {"op": op2}
 
 
 def _feat(case, x, y):
